@@ -229,7 +229,9 @@ func (c *Config) handleSvcEndpointUpdate(svcName string, added, removed []*servi
 		validAdded = append(validAdded, endpoint)
 	}
 
-	if sw.Config == nil {
+	// Nothing to announce while the endpoint list is still unknown (only
+	// ineffective removals so far), the first effective update emits the add event.
+	if sw.Config == nil || sw.Endpoints == nil {
 		return
 	}
 	switch oldEndpoints {
